@@ -115,13 +115,13 @@ SvcReset(res, acc) ==
     /\ Has("reset") /\ UNCHANGED open
     /\ Emit([op |-> "reset", res |-> res, acc |-> acc], 3, 2)
 
-SvcToken(c, tok) ==
+SvcToken(c, tok, tid) ==
     /\ Has("token") /\ c \in open /\ UNCHANGED open
-    /\ Emit([op |-> "token", c |-> c, tok |-> tok, tid |-> "tid1"], 2, 1)
+    /\ Emit([op |-> "token", c |-> c, tok |-> tok, tid |-> tid], 2, 1)
 
-SvcTokenReset ==
+SvcTokenReset(tids) ==
     /\ Has("tokenreset") /\ UNCHANGED open
-    /\ Emit([op |-> "tokenreset", tids |-> <<"tid1">>], 1, 1)
+    /\ Emit([op |-> "tokenreset", tids |-> tids], 1, 1)
 
 Time(ms) ==
     /\ Has("time") /\ UNCHANGED open
@@ -153,8 +153,8 @@ NextC(cls) ==
             \/ \E n \in Names : SvcDelete(n) \/ SvcReaccess(n) \/ SvcQuery(n)
             \/ \E n \in Names, a \in 0..1, k \in Keys, v \in Vals : SvcMutate(n, a, k, v)
             \/ \E res \in Patterns, acc \in Patterns : SvcReset(res, acc)
-            \/ \E c \in Conns, t \in Tokens : SvcToken(c, t)
-            \/ SvcTokenReset
+            \/ \E c \in Conns, t \in Tokens, tid \in {"tid1", "tid2", ""} : SvcToken(c, t, tid)
+            \/ \E tids \in {<<"tid1">>, <<"tid2">>, <<"tid1", "tid2">>} : SvcTokenReset(tids)
       [] cls = "misc" ->
             \/ \E c \in Conns : CliClose(c)
             \/ \E ms \in {1000, 6000} : Time(ms)
